@@ -796,6 +796,13 @@ func convertToExp(parser *syntax.Parser, split bool, val json.Marshaler,
 			if err := json.Unmarshal(val, &jv); err != nil {
 				return nil, err
 			}
+			if v := bytes.TrimSpace(jv.Split); len(v) > 0 && v[0] == '{' &&
+				tname.MapDim == 0 {
+				// The parameter is split over a map, so the value is a
+				// map of the parameter's type, not a struct of that type.
+				tname.MapDim = tname.ArrayDim + 1
+				tname.ArrayDim = 0
+			}
 			exp, err := convertToExp(parser, false,
 				jv.Split, tname, lookup)
 			if n, ok := exp.(*syntax.NullExp); ok {
